@@ -1271,7 +1271,7 @@ class C11(Spec):
                   'C11_simple_invocation / C11_invocation_equals_substitution / C11_invocation_match (in text with no other brace or backslash the '
                   'invocation {name} of a defined macro is replaced by its value and the inline entry point renders it exactly as the text with '
                   'the value written in its place, for every prefix, suffix, name, value, fuel and expansion with macros on: through the exact '
-                  'regex semantics and the completeness of the matcher). Parametrised, inclusion / exclusion and line-leading invocations, and '
+                  'regex semantics and the completeness of the matcher), C11_undefined_left_as_written. Parametrised, inclusion / exclusion and line-leading invocations, and '
                   'invocation = substitution on whole documents, are decided by the hand-substitution oracle and correspondence.')
     rule = ('documents with 1-4 macro definitions (single/multi-line, values referring to earlier macros, redefinitions, existential) and '
             'invocations of every form at line start and mid-line in paragraphs, headers, list items; rendered against the hand-substituted '
@@ -1620,8 +1620,10 @@ class C19(Spec):
                   'generated diagnostic texts are the same with and without a callback, for every input), C19_plain_silent (a plain one-line document leaves the session, log included, unchanged), C19_lift_only_logs (inline code changes '
                   'nothing but the log), and the site lemmas C19_illegal_mode_reported / C19_legal_mode_silent / C19_illegal_reset_reported / '
                   'C19_unknown_block_name_reported / C19_illegal_replacement_reported / C19_blank_macro_reported (exactly one diagnostic naming '
-                  'the value, nothing else changed), C19_unterminated_names. Completeness and silence on whole documents are decided by the '
-                  'fault-injection oracle and the transcript correspondence.')
+                  'the value, nothing else changed), C19_unterminated_names, C19_undefined_macro_reported (the invocation of an undefined macro in '
+                  'text with no other brace or backslash is left as written and reported by exactly one diagnostic naming it, for every '
+                  'surrounding text; the defined and the escaped invocation report nothing: C11_simple_invocation, C17_escaped_invocation). '
+                  'Completeness and silence on whole documents are decided by the fault-injection oracle and the transcript correspondence.')
     rule = ('well-formed generated documents (zero diagnostics expected) and single-fault mutants (closing delimiter removed, macro name '
             'misspelt, option value corrupted, block option / block name unknown, pattern ill-formed); also rendered without callback; '
             'non-trivial = the mutant carries a fault')
